@@ -43,45 +43,55 @@ def owner(w):
     return [bool(w.this_ownership), bool(w.this_const)]
 
 
+FAMILY = [dict(A="A", B="B", D="D", C="C"), dict(A="Zed", B="Mid", D="Alf", C="Cee")]
+
+
 def dispatch(mod, sc, emit):
     P = mod.Probe
-    # fresh (unshared) objects, so that reference count deltas are attributable to the call
-    fixed = {"float": float("2.5"), "bool": True, "str": "".join(["a", "\u00e9", "z"]), "bytes": bytes(bytearray(b"by")),
-             "none": None, "wrong": object(),
-             "iA": mod.A(), "iB": mod.B(), "iD": mod.D(), "iC": mod.C(), "kA": mod.A.cref(), "kB": mod.B.cref()}
     insts = ["iA", "iB", "iD", "iC", "kA", "kB"]
-    ids = {k: fixed[k].get_id() for k in insts}
-    ids["A_cref"] = mod.A.cref().get_id()
-    ids["A_gref"] = mod.A.gref().get_id()
-    ids["B_cref"] = mod.B.cref().get_id()
-    ids["B_gref"] = mod.B.gref().get_id()
-    own0 = {k: owner(fixed[k]) for k in insts}
+    fixed, ids, own0 = [], [], []
+    for f in FAMILY:
+        A, B, D, C = (getattr(mod, f[k]) for k in "ABDC")
+        # fresh (unshared) objects, so that reference count deltas are attributable to the call
+        fx = {"float": float("2.5"), "bool": True, "str": "".join(["a", "\u00e9", "z"]), "bytes": bytes(bytearray(b"by")),
+              "none": None, "wrong": object(),
+              "iA": A(), "iB": B(), "iD": D(), "iC": C(), "kA": A.cref(), "kB": B.cref()}
+        d = {k: fx[k].get_id() for k in insts}
+        d.update(A_cref=A.cref().get_id(), A_gref=A.gref().get_id(), B_cref=B.cref().get_id(), B_gref=B.gref().get_id(),
+                 D_cref=D.cref().get_id(), D_gref=D.gref().get_id())
+        fixed.append(fx)
+        ids.append(d)
+        own0.append({k: owner(fx[k]) for k in insts})
     emit({"ids": ids, "own": own0})
     P.take_log()
-    NK = sc["nclasses"]
+    NK = sc["nclasses"] * len(FAMILY)
     for st in sc["sets"]:
         cls = getattr(mod, "S%d" % st["id"])
+        fx, o0 = fixed[st["fam"]], own0[st["fam"]]
         if st["kind"] == "method":
             objs = {"nc": cls(), "c": cls.cref()}
         else:
             objs = {"na": cls}
         P.take_log()
-        for n, (selftok, argtoks) in enumerate(st["calls"]):
+        for n, (selftok, argtoks, kws) in enumerate(st["calls"]):
             emit({"at": [st["id"], n]})
-            args = [int(str(INTV[t[1]])) if t[0] == "int" else fixed[t[0]] for t in argtoks]
+            args = [int(str(INTV[t[1]])) if t[0] == "int" else fx[t[0]] for t in argtoks]
             # small ints, None and True are shared with the interpreter's own activity: not tracked
             track = [not (a is None or a is True or (type(a) is int and -6 < a < 257)) for a in args]
             rc0 = [sys.getrefcount(a) for a in args]
+            pos = [a for a, k in zip(args, kws) if not k]
+            kwd = {k: a for a, k in zip(args, kws) if k}
             live0 = [P.live(k) for k in range(NK)]
             tgt = objs[selftok]
             exc = None
             ret = None
             try:
-                ret = tgt.f(*args)
+                ret = tgt.f(*pos, **kwd)
             except BaseException as e:          # noqa
                 exc = type(e).__name__
                 msg = str(e)[:120]
             log = P.take_log()
+            kwd = pos = None
             rc1 = [sys.getrefcount(a) for a in args]
             live1 = [P.live(k) for k in range(NK)]
             rec = {"s": st["id"], "c": n, "exc": exc, "log": log,
@@ -92,8 +102,8 @@ def dispatch(mod, sc, emit):
                 rec["rett"] = type(ret).__name__
             else:
                 rec["msg"] = msg
-            own1 = {k: owner(fixed[k]) for k in insts}
-            if own1 != own0:
+            own1 = {k: owner(fx[k]) for k in insts}
+            if own1 != o0:
                 rec["own_changed"] = own1
             emit(rec)
             ret = None
